@@ -228,6 +228,11 @@ def generate(seed, run, tier):
                 events.append({"op": "iter_next", "it": it, "n": wrng.randint(1, 3), "c": it})
     for it in sorted(live):
         events.append({"op": "iter_drain", "it": it, "c": it})
+    if crng.random() < 0.02 and events:
+        # thousands of distinct lookups (more than a bounded cache would hold),
+        # then one more assignment and a complete sweep
+        pos = srng.randrange(len(events) + 1)
+        events.insert(pos, {"op": "flood", "n": crng.choice([4200, 8300]), "c": "R9", "t": 0})
     return {"config": config, "events": events}
 
 
@@ -493,6 +498,17 @@ class Run(object):
                 if hit and model[key[: hit[-1]]] is None:
                     stats.probe("lmpv_longest_is_none")
             stats.event("%s|%s|%s|%s" % (ev.get("c"), op, canon(ev["key"]), form))
+        elif op == "flood":
+            n = min(int(ev.get("n", 0)), 20000)
+            trie = self.trie
+            for i in range(n):
+                key = ["flood", i]
+                stats.checks += 1
+                if trie.get(key, ABSENT) is not ABSENT or trie.longest_matching_prefix_value(key) is not model_lmpv(model, tuple(key)):
+                    self.fail("get", op, "a value", "absent", {"key": key})
+            stats.probe("flood_of_distinct_lookups")
+            stats.event("%s|flood|%d" % (ev.get("c"), n))
+            self.sweep("flood", force=True)
         elif op == "len":
             self.q_len(op)
             stats.event("%s|len|%d" % (ev.get("c"), len(model)))
@@ -593,6 +609,10 @@ def shrink_event(config, ev):
     if ev.get("retry"):
         e = dict(ev)
         e["retry"] = ev["retry"] - 1
+        out.append(e)
+    if ev.get("op") == "flood" and ev.get("n", 0) > 1:
+        e = dict(ev)
+        e["n"] = ev["n"] // 2
         out.append(e)
     return out
 
